@@ -227,6 +227,8 @@ pub struct Violation {
 /// Counters used to classify cases (non-triviality rules, evidence histograms)
 #[derive(Clone, Debug, Default)]
 pub struct Stats {
+    /// polls performed by inline tasks from inside a waker call
+    pub inline_polls: u32,
     /// an input stream woke its own waker from inside poll_next
     pub stream_self_wakes: u32,
     /// a stream ended because the library dropped the stream that owned its sender (chained pipes)
@@ -296,6 +298,10 @@ pub struct Inner {
     /// logical time at which the final stage began (0 = not yet)
     pub final_stage_clock: u64,
     /// the case injects a panic: callers may stay blocked forever on the panicked object and keep handles alive
+    /// futures handed to inline tasks: (operation, resolved)
+    pub inline_futs: Vec<(OpId, bool)>,
+    /// pipe outputs handed to inline tasks: (stream, finished or torn down)
+    pub inline_consumers: Vec<(usize, bool)>,
     pub panic_case: bool,
     /// logical time of the injected panic (0 = none yet)
     pub panic_clock: u64,
